@@ -18,6 +18,9 @@ Proof. vm_compute. reflexivity. Qed.
 Lemma gen_documented_ok : forallb documented_ok gen_tools = true.
 Proof. vm_compute. reflexivity. Qed.
 
+Lemma gen_params_used_ok : forallb tool_params_used_ok gen_tools = true.
+Proof. vm_compute. reflexivity. Qed.
+
 Lemma in_gen {P : tool -> bool} t : forallb P gen_tools = true -> In t gen_tools -> P t = true.
 Proof. intros H Hin. rewrite forallb_forall in H. auto. Qed.
 
@@ -331,4 +334,24 @@ Proof.
   intros Ht Ha. pose proof (in_gen t gen_documented_ok Ht) as H. unfold documented_ok in H.
   rewrite forallb_forall in H. specialize (H a Ha). apply existsb_exists in H as (x & Hx & E).
   apply tok_eqb_eq in E. subst x. apply in_flat_map in Hx. exact Hx.
+Qed.
+
+(* ---------------------------------------------------------------- every given parameter is consumed *)
+Lemma covers_read b n i k :
+  covers b n = true -> 1 <= k <= n -> In (k, i + k) (block_reads b i n).
+Proof.
+  unfold covers, reads_at, block_reads. intros H Hk. rewrite forallb_forall in H.
+  assert (Hin : In k (seq 1 n)) by (apply in_seq; lia).
+  specialize (H k Hin). apply existsb_exists in H as (x & Hx & E). apply Nat.eqb_eq in E. subst x.
+  apply in_map_iff in Hx as (u & Hu & Hf). apply in_map_iff. exists u. split; [rewrite Hu; reflexivity|exact Hf].
+Qed.
+
+Lemma documented_parameters_all_read t b argv i k :
+  In t gen_tools -> In b (t_blocks t) -> block_option argv b = Ret (Some i) ->
+  (num_args argv i = nmand b \/ num_args argv i = List.length (b_parms b)) ->
+  1 <= k <= num_args argv i -> In (k, i + k) (block_reads b i (num_args argv i)).
+Proof.
+  intros Ht Hb _ Hn Hk. pose proof (in_gen t gen_params_used_ok Ht) as H. unfold tool_params_used_ok in H.
+  rewrite forallb_forall in H. specialize (H b Hb). unfold params_used_ok in H. apply andb_true_iff in H as [H1 H2].
+  destruct Hn as [Hn|Hn]; rewrite Hn in *; apply covers_read; auto.
 Qed.
